@@ -34,6 +34,7 @@ type collector struct {
 	mu     sync.Mutex
 	calls  []rawCall
 	owners []string
+	conns  []string
 }
 
 func (c *collector) take() []rawCall {
@@ -49,11 +50,26 @@ func (c *collector) take() []rawCall {
 // the id they carry; a call whose owner nobody registered (or that is left over when its owner leaves) is an orphan.
 type backend struct {
 	mu      sync.Mutex
+	byConn  map[string]*collector // client address of the connection the request arrived on (see gateway.ConnContext)
 	byOwner map[string]*collector
 	orphans []rawCall
 }
 
-func newBackend() *backend { return &backend{byOwner: map[string]*collector{}} }
+// connKey is the context key under which the harness' http.Server.ConnContext stores the remote address of the
+// connection. Every handler but the shell's IsActive call hands the request context to the back end, so a call is
+// attributed to the very connection (= client identity) it was made for; the owner address is the fall-back.
+type connKey struct{}
+
+func newBackend() *backend {
+	return &backend{byOwner: map[string]*collector{}, byConn: map[string]*collector{}}
+}
+
+func (b *backend) bindConn(addr string, c *collector) {
+	b.mu.Lock()
+	b.byConn[addr] = c
+	c.conns = append(c.conns, addr)
+	b.mu.Unlock()
+}
 
 func (b *backend) register(owners ...string) *collector {
 	c := &collector{owners: owners}
@@ -68,7 +84,12 @@ func (b *backend) register(owners ...string) *collector {
 func (b *backend) unregister(c *collector) {
 	b.mu.Lock()
 	for _, o := range c.owners {
-		delete(b.byOwner, o)
+		if b.byOwner[o] == c {
+			delete(b.byOwner, o)
+		}
+	}
+	for _, a := range c.conns {
+		delete(b.byConn, a)
 	}
 	b.orphans = append(b.orphans, c.take()...)
 	b.mu.Unlock()
@@ -82,10 +103,16 @@ func (b *backend) takeOrphans() []rawCall {
 	return out
 }
 
-func (b *backend) record(c rawCall) {
+func (b *backend) record(ctx context.Context, c rawCall) {
 	b.mu.Lock()
 	defer b.mu.Unlock()
-	col := b.byOwner[c.Owner]
+	var col *collector
+	if addr, ok := ctx.Value(connKey{}).(string); ok {
+		col = b.byConn[addr]
+	}
+	if col == nil {
+		col = b.byOwner[c.Owner]
+	}
 	if col == nil {
 		b.orphans = append(b.orphans, c)
 		return
@@ -95,12 +122,12 @@ func (b *backend) record(c rawCall) {
 	col.mu.Unlock()
 }
 
-func (b *backend) lease(m string, id mtypes.LeaseID) {
-	b.record(rawCall{M: m, Owner: id.Owner, DSeq: id.DSeq, GSeq: id.GSeq, OSeq: id.OSeq, Provider: id.Provider, Lease: true})
+func (b *backend) lease(ctx context.Context, m string, id mtypes.LeaseID) {
+	b.record(ctx, rawCall{M: m, Owner: id.Owner, DSeq: id.DSeq, GSeq: id.GSeq, OSeq: id.OSeq, Provider: id.Provider, Lease: true})
 }
 
-func (b *backend) deployment(m string, id dtypes.DeploymentID) {
-	b.record(rawCall{M: m, Owner: id.Owner, DSeq: id.DSeq})
+func (b *backend) deployment(ctx context.Context, m string, id dtypes.DeploymentID) {
+	b.record(ctx, rawCall{M: m, Owner: id.Owner, DSeq: id.DSeq})
 }
 
 // provider.Client
@@ -113,12 +140,12 @@ func (b *backend) Cluster() cluster.Client    { return (*backendCluster)(b) }
 
 type backendManifest backend
 
-func (m *backendManifest) Submit(_ context.Context, id dtypes.DeploymentID, _ manifest.Manifest) error {
-	(*backend)(m).deployment("Submit", id)
+func (m *backendManifest) Submit(ctx context.Context, id dtypes.DeploymentID, _ manifest.Manifest) error {
+	(*backend)(m).deployment(ctx, "Submit", id)
 	return nil
 }
-func (m *backendManifest) IsActive(_ context.Context, id dtypes.DeploymentID) (bool, error) {
-	(*backend)(m).deployment("IsActive", id)
+func (m *backendManifest) IsActive(ctx context.Context, id dtypes.DeploymentID) (bool, error) {
+	(*backend)(m).deployment(ctx, "IsActive", id)
 	return true, nil
 }
 
@@ -126,34 +153,34 @@ type backendCluster backend
 
 var errScripted = errors.New("scripted backend")
 
-func (c *backendCluster) LeaseStatus(_ context.Context, id mtypes.LeaseID) (*ctypes.LeaseStatus, error) {
-	(*backend)(c).lease("LeaseStatus", id)
+func (c *backendCluster) LeaseStatus(ctx context.Context, id mtypes.LeaseID) (*ctypes.LeaseStatus, error) {
+	(*backend)(c).lease(ctx, "LeaseStatus", id)
 	return &ctypes.LeaseStatus{}, nil
 }
-func (c *backendCluster) LeaseEvents(_ context.Context, id mtypes.LeaseID, _ string, _ bool) (ctypes.EventsWatcher, error) {
-	(*backend)(c).lease("LeaseEvents", id)
+func (c *backendCluster) LeaseEvents(ctx context.Context, id mtypes.LeaseID, _ string, _ bool) (ctypes.EventsWatcher, error) {
+	(*backend)(c).lease(ctx, "LeaseEvents", id)
 	return nil, nil // the handler answers "lease not found" and closes the websocket
 }
-func (c *backendCluster) LeaseLogs(_ context.Context, id mtypes.LeaseID, _ string, _ bool, _ *int64) ([]*ctypes.ServiceLog, error) {
-	(*backend)(c).lease("LeaseLogs", id)
+func (c *backendCluster) LeaseLogs(ctx context.Context, id mtypes.LeaseID, _ string, _ bool, _ *int64) ([]*ctypes.ServiceLog, error) {
+	(*backend)(c).lease(ctx, "LeaseLogs", id)
 	return nil, nil // "no running pods"
 }
-func (c *backendCluster) ServiceStatus(_ context.Context, id mtypes.LeaseID, _ string) (*ctypes.ServiceStatus, error) {
-	(*backend)(c).lease("ServiceStatus", id)
+func (c *backendCluster) ServiceStatus(ctx context.Context, id mtypes.LeaseID, _ string) (*ctypes.ServiceStatus, error) {
+	(*backend)(c).lease(ctx, "ServiceStatus", id)
 	return &ctypes.ServiceStatus{}, nil
 }
-func (c *backendCluster) Deploy(_ context.Context, id mtypes.LeaseID, _ *manifest.Group) error {
-	(*backend)(c).lease("Deploy", id)
+func (c *backendCluster) Deploy(ctx context.Context, id mtypes.LeaseID, _ *manifest.Group) error {
+	(*backend)(c).lease(ctx, "Deploy", id)
 	return errScripted
 }
-func (c *backendCluster) TeardownLease(_ context.Context, id mtypes.LeaseID) error {
-	(*backend)(c).lease("TeardownLease", id)
+func (c *backendCluster) TeardownLease(ctx context.Context, id mtypes.LeaseID) error {
+	(*backend)(c).lease(ctx, "TeardownLease", id)
 	return errScripted
 }
 func (c *backendCluster) Deployments(context.Context) ([]ctypes.Deployment, error) { return nil, nil }
 func (c *backendCluster) Inventory(context.Context) ([]ctypes.Node, error)         { return nil, nil }
-func (c *backendCluster) Exec(_ context.Context, id mtypes.LeaseID, _ string, _ uint, _ []string, _ io.Reader, _ io.Writer, _ io.Writer, _ bool, _ remotecommand.TerminalSizeQueue) (ctypes.ExecResult, error) {
-	(*backend)(c).lease("Exec", id)
+func (c *backendCluster) Exec(ctx context.Context, id mtypes.LeaseID, _ string, _ uint, _ []string, _ io.Reader, _ io.Writer, _ io.Writer, _ bool, _ remotecommand.TerminalSizeQueue) (ctypes.ExecResult, error) {
+	(*backend)(c).lease(ctx, "Exec", id)
 	return nil, errScripted
 }
 
